@@ -296,6 +296,8 @@ class ndarray(object):
     # -- conversion ------------------------------------------------------------------
     def astype(self, dt, copy=True):
         dt = _dt(dt)
+        if not copy and dt == self.dtype:
+            return self
         if self.is_conc():
             with _np.errstate(all='ignore'):
                 return _wrap(self.real().astype(dt))
@@ -651,6 +653,14 @@ def ones_like(x, dtype=None):
 
 def empty_like(x, dtype=None):
     return zeros_like(x, dtype)
+
+
+def hypot(x, y):
+    x, y = asarray(x), asarray(y)
+    if not (x.is_conc() and y.is_conc()):
+        raise Inconclusive('hypot of symbolic values (irrational)')
+    with _np.errstate(all='ignore'):
+        return _wrap(_np.hypot(x.real(), y.real()))
 
 
 def linspace(start, stop, num=50, endpoint=True):
